@@ -10,7 +10,7 @@ from . import lincommon as lc
 
 PROP = "C11"
 HOSTILE = ("scale", 'special')
-MONITORS = ("WF", "DENS", "CACHE")
+MONITORS = ("WF", "DENS", "CACHE", "FORM")
 ANCHORS = [("conditional.py", "ConditionalGaussianPDF.set_y"),
            ("factor.py", "ConjugateFactor.product"),
            ("measure.py", "GaussianMeasure.multiply"), ("measure.py", "GaussianMeasure.log_integral"),
